@@ -12,7 +12,7 @@ import (
 func init() {
 	register("C05", Meta{
 		Explanation: "Forbidden shapes and containment in begin/end-block processing: (iter-nesting) no open store-iterator region reachable from begin/end block contains the creation of another iterator on the same store together with either a write to that store inside the region or a nested key range that is not an extension of the outer prefix (the cachekv/memdb deadlock: the new iterator must move not-yet-sorted dirty keys of its range into the sorted cache under the write lock while the outer iterator's goroutine holds the read lock once more than 64 items are pending); regions reachable only from messages/governance are reported as advisory; (contain) the event / attestation handlers, which consume validator-reported bodies, are invoked only through call chains that pass a recover boundary (a deferred function that calls recover() and does not re-panic), and the recovered path is treated like a handler error (cached writes dropped); (minter-cancel) every call of the batch-cancel function (which panics for Minter) is guarded by chainId != \"minter\" on every call chain; (bounded-loops) code reachable from begin/end block has no loop without an exit and no recursion other than the bounded handler self-call accepted by C03.single-apply; (inventory, evidence only) panic primitives reachable from block processing outside every recover boundary.",
-		NotDecided: []string{"panics outside the boundary that depend on arithmetic or state integrity (inventoried only)", "SDK-internal panics", "liveness / termination in general (only: no exit-less loop, no unbounded recursion)", "the upgrade handlers in app/app.go (they run in the upgrade module's begin-block, outside the property's scope)"},
+		NotDecided:  []string{"panics outside the boundary that depend on arithmetic or state integrity (inventoried only)", "SDK-internal panics", "liveness / termination in general (only: no exit-less loop, no unbounded recursion)", "the upgrade handlers in app/app.go (they run in the upgrade module's begin-block, outside the property's scope)"},
 		Assumptions: append(append([]string{}, commonAssumptions...), "cosmos-sdk v0.45.4 store/cachekv and tm-db v0.6.6 memdb iterators behave as read (iterator goroutine holds RLock while more than its buffer of items is pending; cachekv.iterator sorts dirty keys of its range with MemDB.Set)"),
 	}, checkC05)
 }
@@ -109,6 +109,32 @@ func checkC05(c *Ctx) {
 		}
 	}
 	r.Analysed["iterator_regions"] = nReg
+
+	// ---- iter-closed: an iterator abandoned before it is exhausted keeps the memdb read lock ----
+	for _, f := range sortedFuncs(live) {
+		if p.L.IsGenerated(f.Pos()) {
+			continue
+		}
+		for _, op := range p.StoreOps(f) {
+			if !op.IsIter() {
+				continue
+			}
+			iterVal, _ := op.Site.(ssa.Value)
+			if iterVal == nil {
+				continue
+			}
+			ok, why := iteratorReleased(f, op.Site.(ssa.Instruction), iterVal)
+			key := "closed:" + fname(f)
+			switch {
+			case ok:
+				r.Ok("C05.iter-nesting", key, c.pos(op.Site), "the iterator is closed (or exhausted) on every path out of the function")
+			case blockReach[f]:
+				r.Bad("C05.iter-nesting", key, c.pos(op.Site), "the store iterator can be abandoned without Close() before it is exhausted ("+why+"): its goroutine keeps the memdb read lock and the next iterator that has dirty keys to sort blocks forever")
+			default:
+				r.Note("C05.iter-nesting", "advisory:"+key, c.pos(op.Site), "reachable from messages/queries only: "+why)
+			}
+		}
+	}
 
 	// ---- contain ---------------------------------------------------------------------------
 	var handlers []*ssa.Function
@@ -396,4 +422,78 @@ func callCycles(p *ana.Prog, scope map[*ssa.Function]bool) [][]*ssa.Function {
 		}
 	}
 	return out
+}
+
+// iteratorReleased: on every path from the creation to a function exit the iterator is either
+// closed (deferred Close counts for all later exits) or was exhausted (the exit is taken from the
+// false edge of its Valid() test).
+func iteratorReleased(f *ssa.Function, create ssa.Instruction, iterVal ssa.Value) (bool, string) {
+	isCloseAt := func(in ssa.Instruction) (bool, bool) {
+		site, ok := in.(ssa.CallInstruction)
+		if !ok {
+			return false, false
+		}
+		cc := site.Common()
+		if cc.IsInvoke() && cc.Method.Name() == "Close" && cc.Value == iterVal {
+			_, d := in.(*ssa.Defer)
+			return true, d
+		}
+		return false, false
+	}
+	// deferred close dominating everything after creation?
+	for _, b := range f.Blocks {
+		for _, in := range b.Instrs {
+			if c, d := isCloseAt(in); c && d {
+				if in.Block() == create.Block() || create.Block().Dominates(in.Block()) {
+					return true, ""
+				}
+			}
+		}
+	}
+	type state struct {
+		b   *ssa.BasicBlock
+		idx int
+	}
+	seen := map[*ssa.BasicBlock]bool{}
+	bad := ""
+	var walk func(b *ssa.BasicBlock, from int)
+	walk = func(b *ssa.BasicBlock, from int) {
+		for i := from; i < len(b.Instrs); i++ {
+			in := b.Instrs[i]
+			if c, _ := isCloseAt(in); c {
+				return
+			}
+			switch x := in.(type) {
+			case *ssa.Return:
+				bad = "return at " + x.Parent().Prog.Fset.Position(x.Pos()).String()
+				return
+			case *ssa.If:
+				// exhausted: the false edge of iter.Valid()
+				if call, _ := ana.UnwrapCall(x.Cond); call != nil && call.Call.IsInvoke() && call.Call.Method.Name() == "Valid" && call.Call.Value == iterVal {
+					if !seen[b.Succs[0]] {
+						seen[b.Succs[0]] = true
+						walk(b.Succs[0], 0)
+					}
+					return // the false edge means exhausted: released
+				}
+			}
+		}
+		for _, s := range b.Succs {
+			if !seen[s] {
+				seen[s] = true
+				walk(s, 0)
+			}
+		}
+	}
+	idx := 0
+	for i, in := range create.Block().Instrs {
+		if in == create {
+			idx = i + 1
+		}
+	}
+	walk(create.Block(), idx)
+	if bad != "" {
+		return false, "unreleased exit: " + bad
+	}
+	return true, ""
 }
